@@ -61,7 +61,7 @@ def main():
         names = []
         for f in demo_files:
             names += re.findall(r"^func (Test\w+)\(", open(os.path.join(src, f)).read(), re.M)
-        demo_cmd = f"go test -vet=off -count=1 -run '^({'|'.join(names)})$' {pkg}"
+        demo_cmd = f"go test -tags verif -vet=off -count=1 -run '^({'|'.join(names)})$' {pkg}"
         rc, o = sh(demo_cmd, cwd=mod)
         log["demo_pristine"] = "pass" if rc == 0 else "FAIL"
         log["demo_cmd"] = f"(cd <module {os.path.relpath(mod, wt)}>) {demo_cmd}"
@@ -120,7 +120,10 @@ def main():
         meta.update(res)
         meta["breaks_property"] = pid
         json.dump(meta, open(os.path.join(dst, "meta.json"), "w"), indent=1)
-        print(json.dumps(log, indent=1)[:3000])
+        for k in ('demo_with_patch_output', 'check_tail', 'demo_pristine_output'):
+            log.pop(k, None) if False else None
+        brief = {k: v for k, v in log.items() if k not in ('demo_with_patch_output', 'check_tail', 'demo_pristine_output', 'check_violation_lines', 'demo_cmd')}
+        print(json.dumps(brief))
     finally:
         sh(f"git -C /repo worktree remove --force {wt}")
         shutil.rmtree(wt, ignore_errors=True)
